@@ -427,14 +427,16 @@ func (d *badgerNodeDB) GetWriteLog(ctx context.Context, startRoot, endRoot node.
 					logRoots: append(curItem.logRoots, curItem.endRootHash),
 				}
 				if nextItem.endRootHash.Equal(&startRootHash) {
-					// Path has been found, deserialize and stream write logs.
-					var index int
+					// Path has been found, deserialize and stream write logs. The search went from
+					// the end root towards the start root, so replay the hops in reverse order of
+					// discovery (from the start root towards the end root).
+					index := len(nextItem.logKeys) - 1
 					discardTx = false
 					// Close iterator now as ReviveHashedDBWriteLogs can close the txn immediately.
 					it.Close()
 					return api.ReviveHashedDBWriteLogs(ctx,
 						func() (node.Root, api.HashedDBWriteLog, error) {
-							if index >= len(nextItem.logKeys) {
+							if index < 0 {
 								return node.Root{}, nil, nil
 							}
 
@@ -459,7 +461,7 @@ func (d *badgerNodeDB) GetWriteLog(ctx context.Context, startRoot, endRoot node.
 								return node.Root{}, nil, err
 							}
 
-							index++
+							index--
 							return root, log, nil
 						},
 						func(root node.Root, h hash.Hash) (*node.LeafNode, error) {
